@@ -92,8 +92,10 @@ class KOpt(Kind):
 
 
 class KDict(Kind):
-    """dict with value semantics: dom : K -> Bool, one array per value component, and the
-    insertion order as a list of keys (len + array)."""
+    """dict with value semantics, modelled on CPython's own layout: dom : K -> Bool, one array per value
+    component, size (number of live keys), and the insertion log (olen, order : Int -> K, pos : K -> Int).
+    A deleted key stays in the log as a tombstone; slot i of the log is live iff dom[order[i]] and
+    pos[order[i]] == i.  See pyvc/dicts.py."""
 
     def __init__(self, k, v):
         self.k, self.v = k, v
@@ -137,7 +139,7 @@ def flat(kind):
         ks = flat(kind.k)
         assert len(ks) == 1, "dict keys must be scalar"
         return [z3.ArraySort(ks[0], B)] + [z3.ArraySort(ks[0], s) for s in flat(kind.v)] + \
-            [I, z3.ArraySort(I, ks[0])]
+            [I, I, z3.ArraySort(I, ks[0]), z3.ArraySort(ks[0], I)]
     if isinstance(kind, KFunc):
         return []
     raise TypeError(kind)
